@@ -139,12 +139,14 @@ package zerolog
 //@   arith int
 //@   requires forall k in 0..len(t.writers): t.writers[k] != nil
 //@   ensures ncalls(LevelWriter.WriteLevel) == old(ncalls(LevelWriter.WriteLevel)) + len(t.writers)
+//@   ensures [C14] ncalls(ErrorHandler) == old(ncalls(ErrorHandler))
 //@   ensures forall k in 0..len(t.writers): callarg(LevelWriter.WriteLevel, old(ncalls(LevelWriter.WriteLevel)) + k, 0) == t.writers[k] && callarg(LevelWriter.WriteLevel, old(ncalls(LevelWriter.WriteLevel)) + k, 1) == l && same(callarg(LevelWriter.WriteLevel, old(ncalls(LevelWriter.WriteLevel)) + k, 2), p)
 //@   ensures (err == nil) == (forall k in 0..len(t.writers): callres(LevelWriter.WriteLevel, old(ncalls(LevelWriter.WriteLevel)) + k, 1) == nil && callres(LevelWriter.WriteLevel, old(ncalls(LevelWriter.WriteLevel)) + k, 0) == len(p))
 //@   ensures err != nil ==> exists j in 0..len(t.writers): (forall k in 0..j: callres(LevelWriter.WriteLevel, old(ncalls(LevelWriter.WriteLevel)) + k, 1) == nil && callres(LevelWriter.WriteLevel, old(ncalls(LevelWriter.WriteLevel)) + k, 0) == len(p)) && (callres(LevelWriter.WriteLevel, old(ncalls(LevelWriter.WriteLevel)) + j, 1) != nil ==> err == callres(LevelWriter.WriteLevel, old(ncalls(LevelWriter.WriteLevel)) + j, 1)) && (callres(LevelWriter.WriteLevel, old(ncalls(LevelWriter.WriteLevel)) + j, 1) == nil ==> callres(LevelWriter.WriteLevel, old(ncalls(LevelWriter.WriteLevel)) + j, 0) != len(p) && err == io.ErrShortWrite)
 //@   loop 1:
 //@     invariant 0 <= rangeindex + 1 && rangeindex + 1 <= len(t.writers)
 //@     invariant ncalls(LevelWriter.WriteLevel) == old(ncalls(LevelWriter.WriteLevel)) + rangeindex + 1
+//@     invariant [C14] ncalls(ErrorHandler) == old(ncalls(ErrorHandler))
 //@     invariant forall k in 0..rangeindex+1: callarg(LevelWriter.WriteLevel, old(ncalls(LevelWriter.WriteLevel)) + k, 0) == t.writers[k] && callarg(LevelWriter.WriteLevel, old(ncalls(LevelWriter.WriteLevel)) + k, 1) == l && same(callarg(LevelWriter.WriteLevel, old(ncalls(LevelWriter.WriteLevel)) + k, 2), p)
 //@     invariant (err == nil) == (forall k in 0..rangeindex+1: callres(LevelWriter.WriteLevel, old(ncalls(LevelWriter.WriteLevel)) + k, 1) == nil && callres(LevelWriter.WriteLevel, old(ncalls(LevelWriter.WriteLevel)) + k, 0) == len(p))
 //@     invariant err != nil ==> exists j in 0..rangeindex+1: (forall k in 0..j: callres(LevelWriter.WriteLevel, old(ncalls(LevelWriter.WriteLevel)) + k, 1) == nil && callres(LevelWriter.WriteLevel, old(ncalls(LevelWriter.WriteLevel)) + k, 0) == len(p)) && (callres(LevelWriter.WriteLevel, old(ncalls(LevelWriter.WriteLevel)) + j, 1) != nil ==> err == callres(LevelWriter.WriteLevel, old(ncalls(LevelWriter.WriteLevel)) + j, 1)) && (callres(LevelWriter.WriteLevel, old(ncalls(LevelWriter.WriteLevel)) + j, 1) == nil ==> callres(LevelWriter.WriteLevel, old(ncalls(LevelWriter.WriteLevel)) + j, 0) != len(p) && err == io.ErrShortWrite)
@@ -220,6 +222,7 @@ package zerolog
 //@   ensures [C03] ncalls(LevelWriter.WriteLevel) == old(ncalls(LevelWriter.WriteLevel)) + ite(e.level != Disabled && old(e.w) != nil, 1, 0)
 //@   ensures [C14] callres(Event.write, old(ncalls(Event.write)), 0) != nil && ErrorHandler != nil ==> ncalls(ErrorHandler) == old(ncalls(ErrorHandler)) + 1 && callarg(ErrorHandler, old(ncalls(ErrorHandler)), 0) == callres(Event.write, old(ncalls(Event.write)), 0)
 //@   ensures [C14] callres(Event.write, old(ncalls(Event.write)), 0) == nil ==> ncalls(ErrorHandler) == old(ncalls(ErrorHandler))
+//@   ensures [C14] callres(Event.write, old(ncalls(Event.write)), 0) != nil && ErrorHandler != nil && old(e.done) != nil ==> callseq(ErrorHandler, old(ncalls(ErrorHandler))) < callseq(Event.done, old(ncalls(Event.done)))
 //@   ensures [C03] ncalls(Event.done) == old(ncalls(Event.done)) + ite(old(e.done) != nil, 1, 0)
 //@   loop 1:
 //@     invariant 0 <= rangeindex + 1 && rangeindex + 1 <= len(old(e.ch))
@@ -377,7 +380,7 @@ package zerolog
 
 //@ func (*Array).Object(a, obj) res
 //@   flag frontend
-//@   requires obj != nil
+//@   flag nilpanics
 //@   ensures [C06,C07] ncalls(newEvent) == old(ncalls(newEvent)) + 1 && ncalls(putEvent) == old(ncalls(putEvent)) + 1 && callarg(putEvent, old(ncalls(putEvent)), 0) == callres(newEvent, old(ncalls(newEvent)), 0)
 
 //@ func (*Event).Func(e, f) res
@@ -838,3 +841,45 @@ package zerolog
 //@   ensures res.callerSkipFrameCount == skipFrameCount
 
 //@ global [C19] ch.callerSkipFrameCount == useGlobalSkipFrameCount
+
+// C03: LevelHook dispatches an event to the hook registered for exactly its level (NoLevel included),
+// once, with the event, level and message it was given; a level without a hook runs nothing.
+//@ func (LevelHook).Run(h, e, level, message)
+//@   props C03
+//@   arith int
+//@   requires e != nil && eventbuf(e.buf)
+//@   ensures level == TraceLevel && h.TraceHook != nil ==> ncalls(Hook.Run) == old(ncalls(Hook.Run)) + 1 && callarg(Hook.Run, old(ncalls(Hook.Run)), 0) == h.TraceHook && callarg(Hook.Run, old(ncalls(Hook.Run)), 1) == e && callarg(Hook.Run, old(ncalls(Hook.Run)), 2) == level && same(callarg(Hook.Run, old(ncalls(Hook.Run)), 3), message)
+//@   ensures level == TraceLevel && h.TraceHook == nil ==> ncalls(Hook.Run) == old(ncalls(Hook.Run))
+//@   ensures level == DebugLevel && h.DebugHook != nil ==> ncalls(Hook.Run) == old(ncalls(Hook.Run)) + 1 && callarg(Hook.Run, old(ncalls(Hook.Run)), 0) == h.DebugHook && callarg(Hook.Run, old(ncalls(Hook.Run)), 1) == e && callarg(Hook.Run, old(ncalls(Hook.Run)), 2) == level && same(callarg(Hook.Run, old(ncalls(Hook.Run)), 3), message)
+//@   ensures level == DebugLevel && h.DebugHook == nil ==> ncalls(Hook.Run) == old(ncalls(Hook.Run))
+//@   ensures level == InfoLevel && h.InfoHook != nil ==> ncalls(Hook.Run) == old(ncalls(Hook.Run)) + 1 && callarg(Hook.Run, old(ncalls(Hook.Run)), 0) == h.InfoHook && callarg(Hook.Run, old(ncalls(Hook.Run)), 1) == e && callarg(Hook.Run, old(ncalls(Hook.Run)), 2) == level && same(callarg(Hook.Run, old(ncalls(Hook.Run)), 3), message)
+//@   ensures level == InfoLevel && h.InfoHook == nil ==> ncalls(Hook.Run) == old(ncalls(Hook.Run))
+//@   ensures level == WarnLevel && h.WarnHook != nil ==> ncalls(Hook.Run) == old(ncalls(Hook.Run)) + 1 && callarg(Hook.Run, old(ncalls(Hook.Run)), 0) == h.WarnHook && callarg(Hook.Run, old(ncalls(Hook.Run)), 1) == e && callarg(Hook.Run, old(ncalls(Hook.Run)), 2) == level && same(callarg(Hook.Run, old(ncalls(Hook.Run)), 3), message)
+//@   ensures level == WarnLevel && h.WarnHook == nil ==> ncalls(Hook.Run) == old(ncalls(Hook.Run))
+//@   ensures level == ErrorLevel && h.ErrorHook != nil ==> ncalls(Hook.Run) == old(ncalls(Hook.Run)) + 1 && callarg(Hook.Run, old(ncalls(Hook.Run)), 0) == h.ErrorHook && callarg(Hook.Run, old(ncalls(Hook.Run)), 1) == e && callarg(Hook.Run, old(ncalls(Hook.Run)), 2) == level && same(callarg(Hook.Run, old(ncalls(Hook.Run)), 3), message)
+//@   ensures level == ErrorLevel && h.ErrorHook == nil ==> ncalls(Hook.Run) == old(ncalls(Hook.Run))
+//@   ensures level == FatalLevel && h.FatalHook != nil ==> ncalls(Hook.Run) == old(ncalls(Hook.Run)) + 1 && callarg(Hook.Run, old(ncalls(Hook.Run)), 0) == h.FatalHook && callarg(Hook.Run, old(ncalls(Hook.Run)), 1) == e && callarg(Hook.Run, old(ncalls(Hook.Run)), 2) == level && same(callarg(Hook.Run, old(ncalls(Hook.Run)), 3), message)
+//@   ensures level == FatalLevel && h.FatalHook == nil ==> ncalls(Hook.Run) == old(ncalls(Hook.Run))
+//@   ensures level == PanicLevel && h.PanicHook != nil ==> ncalls(Hook.Run) == old(ncalls(Hook.Run)) + 1 && callarg(Hook.Run, old(ncalls(Hook.Run)), 0) == h.PanicHook && callarg(Hook.Run, old(ncalls(Hook.Run)), 1) == e && callarg(Hook.Run, old(ncalls(Hook.Run)), 2) == level && same(callarg(Hook.Run, old(ncalls(Hook.Run)), 3), message)
+//@   ensures level == PanicLevel && h.PanicHook == nil ==> ncalls(Hook.Run) == old(ncalls(Hook.Run))
+//@   ensures level == NoLevel && h.NoLevelHook != nil ==> ncalls(Hook.Run) == old(ncalls(Hook.Run)) + 1 && callarg(Hook.Run, old(ncalls(Hook.Run)), 0) == h.NoLevelHook && callarg(Hook.Run, old(ncalls(Hook.Run)), 1) == e && callarg(Hook.Run, old(ncalls(Hook.Run)), 2) == level && same(callarg(Hook.Run, old(ncalls(Hook.Run)), 3), message)
+//@   ensures level == NoLevel && h.NoLevelHook == nil ==> ncalls(Hook.Run) == old(ncalls(Hook.Run))
+//@   ensures level != TraceLevel && level != DebugLevel && level != InfoLevel && level != WarnLevel && level != ErrorLevel && level != FatalLevel && level != PanicLevel && level != NoLevel ==> ncalls(Hook.Run) == old(ncalls(Hook.Run))
+
+// C01 (third round): the default InterfaceMarshalFunc goes through encoding/json's Encoder for
+// every value (which validates and compacts what a json.Marshaler returns); its output is trusted.
+//@ track Encoder.Encode
+//@ func init$7(v) res, err
+//@   props C01
+//@   arith int
+//@   ensures ncalls(Encoder.Encode) == old(ncalls(Encoder.Encode)) + 1 && callarg(Encoder.Encode, old(ncalls(Encoder.Encode)), 1) == v
+
+// C05/C03: UpdateContext applies the update to this logger's own context -- once, whatever the
+// logger's level -- unless it is the shared disabled logger.
+//@ track update
+//@ func (*Logger).UpdateContext(l, update)
+//@   props C05 C03
+//@   arith int
+//@   requires l != nil && update != nil && logctx(l.context)
+//@   ensures l != disabledLogger ==> ncalls(update) == old(ncalls(update)) + 1 && same(l.context, callres(update, old(ncalls(update)), 0).l.context)
+//@   ensures l == disabledLogger ==> ncalls(update) == old(ncalls(update))
